@@ -7,7 +7,7 @@ from proglayer import parse_trace, parse_case
 
 PROPS = "Props/C19.v"
 RULE = ("C19: programs over the tokio-compatible mpsc (bounded/unbounded: send, blocking_send, try_send, recv, blocking_recv, try_recv, close, drops, len/capacity), "
-        "Semaphore (acquire_many, try_acquire_many, add_permits, forget, close; SemaphorePermit::merge / split / num_permits), Mutex, RwLock (with_max_readers, RwLockWriteGuard::downgrade), Notify (notified, enable, await, drop, notify_one, notify_waiters), oneshot and watch (send, send_modify / send_if_modified, send_replace, borrow, borrow_and_update, has_changed, changed, wait_for, subscribe, closed, is_closed / receiver_count, drops of both sides; Sender and Receiver clones), "
+        "Semaphore (acquire_many, try_acquire_many, add_permits, forget, close; SemaphorePermit::merge / split / num_permits), Mutex, RwLock (with_max_readers, RwLockWriteGuard::downgrade), Notify (notified, enable, await, drop, notify_one, notify_waiters), oneshot, OnceCell (set, get, get_or_init, get_or_try_init with initialisers that yield) and watch (send, send_modify / send_if_modified, send_replace, borrow, borrow_and_update, has_changed, changed, wait_for, subscribe, closed, is_closed / receiver_count, drops of both sides; Sender and Receiver clones), "
         "run by threads (block_on / blocking_*) and by tokio::spawn-ed futures (bodies with an odd index go through the _owned variant of every acquisition: acquire_many_owned, try_acquire_many_owned, lock_owned, try_lock_owned, read_owned, write_owned, try_read_owned, try_write_owned, the owned guards' downgrade / merge / split / forget), each on the real crates under a scripted scheduler and on the extracted Coq model (Lang/Tok.v): decisions "
         "(offered, current, yielding, choice), draws, per-operation results, vector clocks, termination and recorded schedule compared.  Oracles on the crate's own traces: FIFO exactly-once delivery, "
         "no value lost before a None, capacity never exceeded, Full only when full, len+capacity=bound at rest, permits held never exceed permits existing (exclusion for locks), and every deadlock "
@@ -43,6 +43,9 @@ CORPUS = [
     "tok none 0,1 1 cU:1 sa1;dr0;aw0|bs0.0.1;bs0.0.2",
     "tok none 0,0,1,1,1,1,1 1 s1 sa1;sa2;yd|ac0.3|ac0.1",
     "tok none 1,0,1,0,1 1 w2 sa1;wr0;dg0;yd;rl0;aw0|rd0;tW0;rl0;wr0",
+    "tok none - 1 x xg0;xs0.5;xg0;xs0.6;xi0.7.1;xg0",
+    "tok none 1,0,1,1,0,1,0,0,1,1 1 x sa1;st2;xi0.5.2;xg0;aw0;jt0|xi0.6.1;xs0.9|xt0.7.1.0;xg0;xi0.8.0",
+    "tok none 0,1,1,0,1,0,1,1,0,0,1,0,1 1 x sa1;sa2;xt0.5.2.0;xg0;aw0;aw1|xi0.6.1;xs0.9|xs0.7;xg0;xi0.8.0",
     "tok none 1,0,1,0,1 1 s3 sa1;ac0.3;sp0.1;rl0;sp0.5;mg0;rl0;aw0|ac0.2;ac0.1;mg0;si0;rl0",
     # watch: every method once; receivers in a thread and in a task; subscribe after the last receiver left; closed()
     "tok none - 1 h5:1:1 ws0.0.7;wb0.0;wc0.0;wh0.0;wx0.0;wc0.0;wh0.0",
@@ -91,9 +94,9 @@ def run(tier):
     ctx.proof_gate(PROPS)
     if not (ctx.build_model() and ctx.build_harness()):
         return ctx.finish()
-    n = 3600 if tier == "quick" else 52000
+    n = 3900 if tier == "quick" else 56000
     cases = list(CORPUS)
-    focuses = ["mix", "mix", "mpsc", "mpsc", "sem", "lock", "notify", "notify", "oneshot", "watch", "watch", "watchre"]
+    focuses = ["mix", "mix", "mpsc", "mpsc", "sem", "lock", "notify", "notify", "oneshot", "watch", "watch", "watchre", "oncecell"]
     for i in range(n):
         wild = (i % 6 == 0)
         fo = focuses[i % len(focuses)]
